@@ -206,7 +206,7 @@ fn variant(kind: Kind, rng: &mut Rng) -> Params {
 }
 
 pub fn run(ctx: &Ctx) -> Report {
-    let njobs = ctx.pick(960, 9600);
+    let njobs = ctx.pick(9600, 144000);
     let seed = ctx.seed;
     let maxlen = ctx.pick(4000usize, 15000usize);
     let jobs: Vec<usize> = (0..njobs).collect();
